@@ -41,7 +41,7 @@ def plan(tier, seed):
 def mandatory_bins(tier):
     b = ["hash_" + h for h in HASHES] + ["enc_" + e for e in ENCODINGS]
     b += ["digest_longer_than_order", "key_scalar_1", "key_scalar_n-1", "lib_sig_verified_by_openssl", "openssl_sig_verified_by_lib", "rfc6979_compared", "message_bit_flips", "signature_bit_flips",
-          "other_key", "forged_r_0", "forged_s_0", "forged_r_n", "forged_s_n", "forged_r_n_plus_1", "forged_2^k", "malformed_truncated", "malformed_extended", "malformed_retagged", "der_long_form_length", "high_s_and_low_s", "verifying_key_with_precomputed_tables", "rfc6979_with_additional_data", "rfc6979_with_additional_data_and_rejected_first_candidate"]
+          "other_key", "forged_r_0", "forged_s_0", "forged_r_n", "forged_s_n", "forged_r_n_plus_1", "forged_2^k", "malformed_truncated", "malformed_extended", "malformed_retagged", "der_long_form_length", "high_s_and_low_s", "verifying_key_with_precomputed_tables", "rfc6979_with_additional_data", "rfc6979_with_additional_data_and_rejected_first_candidate", "malformed_strings_components_resplit", "key_loaded_with_hashfunc_argument"]
     return b
 
 
@@ -131,6 +131,29 @@ def run_shard(spec, ctx):
                         ctx.note("precompute_on_key_loaded_from_string_fails_with_" + type(e).__name__)
             msg = rng.randbytes(16)
             digest = hf(msg).digest()
+            # keys loaded from DER / PEM / string with a hashfunc argument: that hash is the default of the key (and of the public
+            # key derived from it) for every call that does not name one
+            if ki < 2:
+                loaders = (("sk_der", lambda: K.SigningKey.from_der(sk.to_der(), hashfunc=hf)), ("sk_pem", lambda: K.SigningKey.from_pem(sk.to_pem(), hashfunc=hf)),
+                           ("sk_pkcs8", lambda: K.SigningKey.from_der(sk.to_der(format="pkcs8"), hashfunc=hf)), ("sk_string", lambda: K.SigningKey.from_string(sk.to_string(), curve=cv, hashfunc=hf)))
+                for lname, ld in loaders[(hi + ki) % 2 :: 2]:
+                    ctx.ev()
+                    ctx.bin("key_loaded_with_hashfunc_argument")
+                    try:
+                        sk2 = ld()
+                        s_def = sk2.sign(msg)
+                        s_det = sk2.sign_deterministic(msg)
+                        vk_l = K.VerifyingKey.from_der(vk.to_der(), hashfunc=hf)
+                        ok1 = vk_l.verify(s_def, msg) and sk2.verifying_key.verify(s_def, msg) and vk.verify(s_def, msg, hashfunc=hf)
+                        r_, s_ = ns.util.sigdecode_string(s_def, n)
+                        ok2 = ossl.ecdsa_verify(name, pub, digest, r_, s_)
+                        er_, es_, _ = RFC.sign(n, d, digest, hf, lambda k: ossl.point_mul(name, k)[0])
+                        if not (ok1 is True and ok2):
+                            ctx.violation("signature_of_loaded_key_not_made_with_its_hashfunc_argument", {"loader": lname, "hash": hname}, dict(rp0, d=hex(d), hash=hname, loader=lname))
+                        elif tuple(ns.util.sigdecode_string(s_det, n)) != (er_, es_):
+                            ctx.violation("deterministic_signature_differs_from_rfc6979:key_loaded_with_hashfunc_argument", {"loader": lname, "hash": hname}, dict(rp0, d=hex(d), hash=hname, loader=lname))
+                    except Exception as e:
+                        ctx.violation("signature_of_loaded_key_not_made_with_its_hashfunc_argument", {"loader": lname, "hash": hname, "exc": fmt_exc(e)}, dict(rp0, d=hex(d), hash=hname, loader=lname))
             for ei, ename in enumerate(ENCODINGS):
                 if quick and (ei + hi + ki) % 3 and not (ki == 2 and hname == "sha256"):
                     continue
@@ -270,6 +293,9 @@ def run_shard(spec, ctx):
                             ctx.bin("der_long_form_length")
                 else:
                     variants += [("truncated", (sig[0][:-1], sig[1])), ("truncated", (sig[0],)), ("extended", (sig[0], sig[1] + b"\x00")), ("extended", (sig[0], sig[1], sig[1])), ("truncated", (b"", b""))]
+                    # component lengths that are each wrong but add up to the right total
+                    variants += [("resplit", (sig[0] + sig[1][:1], sig[1][1:])), ("resplit", (sig[0][:-1], sig[0][-1:] + sig[1])), ("resplit", (b"", sig[0] + sig[1])), ("resplit", (sig[0] + sig[1], b""))]
+                    ctx.bin("malformed_strings_components_resplit")
                 for vname, bad in variants:
                     ctx.bin("malformed_" + vname) if vname in ("truncated", "extended", "retagged") else None
                     ctx.ev()
